@@ -747,6 +747,14 @@ func historyCase(r drv.Rand, w *emit.Writer, extra map[string]int) {
 		if r.Chance(1, 4) {
 			d = drv.Pick(r, h.devs)
 		}
+		if mustPoll >= 0 && r.Chance(1, 4) {
+			// an APPROVED code polled with deficient credentials (every client kind x wrong / missing /
+			// foreign / near-miss credential); mustPoll stays, the legitimate poll follows
+			dd := h.devs[mustPoll]
+			h.mut("approved+badcreds")
+			h.poll(h.router(), h.badCreds(dd.owner), dd.dc, "")
+			continue
+		}
 		if mustPoll >= 0 && r.Chance(4, 5) {
 			h.pollGood(h.devs[mustPoll])
 			mustPoll = -1
